@@ -86,6 +86,23 @@ CLAIMS = {
              "a solver's job, out of this family).",
         note=TRUST,
         technique="relational normal forms over the instantiated AST, exit/dominance structure"),
+    "C03": dict(
+        text="Decides that every evaluation path is the same computation structurally: all 58 (+2 without templates) dispatch assignments of "
+             "get_evaluator<float|double> name the core their case labels require with matching scalar/vector pairs, definite assignment, no "
+             "fall-through, identical guard/template lists for known orders; constexpr chunk helpers equal their products; all 108 instantiated "
+             "scalar/SIMD cores reduce to the generic core's phases (seed, chunk count, accumulate, step, carry, refresh, driver loop) under the "
+             "substitutions that define them; evaluator entry points are clones of the table's; C wrappers forward unchanged with the default "
+             "precision. Does not decide bit identity under code generation (FMA contraction, vectorisation), a property of the binary.",
+        note=TRUST + "Floating-point expressions are compared as trees (association order matters).",
+        technique="dispatch-table agreement against resolved template arguments, clone detection by canonicalised statement signatures"),
+    "C02": dict(
+        text="Decides the derivative plumbing: every basis kernel (float/double) stores slot 0 of each output on every path (must-dataflow), the "
+             "kernels agree on the order-0 case (value 1, derivative 0), every entry point (table/evaluator, float/double; value, bitmask, "
+             "arbitrary order, gradient) selects the kernel from the derivative selector only and passes knots/nknots/x/centre/order of the same "
+             "dimension, and the gradient lanes are wired value / derivative in lane 1+n / value. Does not decide numerical equality of any "
+             "derivative, margins, or mixed partials.",
+        note=TRUST + "bspline_deriv (recursive reference) is taken as the definition for derivative orders >= 2.",
+        technique="must-write dataflow on kernels, sibling special-case agreement, call-site wiring rules"),
 }
 
 NOT_APPLICABLE = {
@@ -96,4 +113,4 @@ NOT_APPLICABLE = {
 
 # properties whose check is designed (DESIGN.md §4) but not yet built in this tree
 PENDING = {p: "static check designed in DESIGN.md §4 but not built yet in this tree; not claimed until it runs"
-           for p in ("C02", "C03", "C06", "C10", "C11", "C14", "C19")}
+           for p in ("C06", "C10", "C11", "C14", "C19")}
